@@ -17,9 +17,9 @@ import pandas as pd
 from . import common, pipecheck, scenes
 
 LABELINGS = ['shuffled', 'offset', 'float', 'string', 'concat_repeats', 'all_equal', 'random_repeats', 'negative', 'sorted_repeats',
-             'timestamp']
+             'timestamp', 'named_like_column', 'named_like_column']
 LAYOUTS = ['col_perm', 'extra_cols', 'dtype_obj_ceilo', 'dtype_int_dt', 'dtype_int_height', 'dtype_float_type',
-           'dtype_int8_type', 'dtype_object_all', 'objint_ceilo', 'objint_ceilo']
+           'dtype_int8_type', 'dtype_object_all', 'objint_ceilo', 'objint_ceilo', 'dup_extra_cols', 'many_extra_cols']
 RENAMINGS = ['reverse_order', 'ten_nine', 'substring', 'whitespace', 'long', 'unicode', 'empty_ish', 'swap', 'concat_collision', 'concat_collision', 'escapes', 'escapes']
 
 
@@ -76,6 +76,8 @@ def relabel(df, how, rng):
         out.index = [-(i * 3) for i in range(n)]
     elif how == 'sorted_repeats':
         out.index = [i // rng.choice([2, 3]) for i in range(n)]          # repeated AND ascending
+    elif how == 'named_like_column':
+        out = out.set_index(rng.choice(['dt', 'ceilo']), drop=False)      # an index level named like a column
     elif how == 'timestamp':
         out.index = list(df['dt'])                                        # the time stamp as label: repeats for multi-hit measurements
     return out
@@ -87,7 +89,15 @@ def relayout(df, how, rng):
         cols = list(out.columns); rng.shuffle(cols); out = out[cols]
     elif how == 'extra_cols' and 'station' not in out.columns:
         out.insert(rng.randrange(len(out.columns) + 1), 'station', 'LSZH')
-        out['quality'] = np.arange(len(out)) * 0.5
+        out[rng.choice(['quality', 'Quality', 'QC flag'])] = np.arange(len(out)) * 0.5
+    elif how == 'dup_extra_cols' and 'station' not in out.columns:
+        out['station'] = 'LSZH'
+        out = pd.concat([out, out[['station']]], axis=1)
+    elif how == 'many_extra_cols':
+        # several superfluous columns whose labels are of different kinds (ints, strings, tuples)
+        for lab in rng.sample([0, 1, 'station', ('a', 1), 2.5, 'Quality'], rng.choice([2, 3])):
+            if lab not in out.columns:
+                out[lab] = 1
     elif how == 'dtype_obj_ceilo':
         out['ceilo'] = out['ceilo'].astype(object)
     elif how == 'objint_ceilo':
